@@ -93,9 +93,9 @@ def reduced_configs(events):
 class Cached:
     """module text written once, parse tree built once"""
 
-    def __init__(self, events, case):
+    def __init__(self, events, case, layout=None):
         self.events = cmakegen.close(events)
-        self.text = cmakegen.render(cmakegen.items(self.events, case))
+        self.text = cmakegen.render(cmakegen.items(self.events, case), layout)
         self.path = pipeline.write_tmp(self.text)
         self.tree = None
         try:
@@ -236,9 +236,12 @@ def shim_class():
     return Shim
 
 
+INDENTED = {"doc_indent": "   ", "cmd_indent": "   ", "head": "   "}      # no doccomment starts in column 0
+
+
 def check_module(job, case):
-    events, mode = job
-    cm = Cached(events, case)
+    events, mode = job[0], job[1]
+    cm = Cached(events, case, INDENTED if len(job) > 2 and job[2] == "indented" else None)
     evs = cm.events
     cfgs = all_configs() if mode == "all" else reduced_configs(evs) if mode == "reduced" else single_configs()
     base_index, _ = index_page(cm.page(dict.fromkeys(FLAGS, True)))
@@ -277,6 +280,42 @@ def check_module(job, case):
 
 def attribute(case, msgs):
     return None
+
+
+def check_inplace(job, case):
+    """ONE Settings object (and a deep copy of it) whose options are flipped between documentation runs, against a fresh
+    Settings object per configuration: what was documented before must not decide what an option means now"""
+    import copy
+    from cminx.documenter import Documenter
+    events = job
+    text = cmakegen.render(cmakegen.items(cmakegen.close(events), case))
+    path = pipeline.write_tmp(text)
+
+    def page(settings):
+        with common.quiet():
+            return Documenter(path, "Title", "mod", settings).process().to_text()
+    msgs = []
+    shared = modsearch.settings_of(dict.fromkeys(FLAGS, True))
+    try:
+        page(shared)
+        for how in ("in place", "deep copy"):
+            for f in FLAGS:
+                s = shared if how == "in place" else copy.deepcopy(shared)
+                setattr(s.input, f, False)
+                got = page(s)
+                cfg = dict.fromkeys(FLAGS, True)
+                cfg[f] = False
+                want = page(modsearch.settings_of(cfg))
+                if how == "in place":
+                    setattr(s.input, f, True)
+                if got != want:
+                    msgs.append(f"stale-settings: {f} switched off {how} on a Settings object that was used before: the page differs "
+                                f"from the page under a fresh Settings object with the same values")
+                    break
+    except Exception as e:  # noqa
+        msgs.append(f"error: pipeline failed: {type(e).__name__}: {e}")
+    return {"viol": msgs[:2], "obs": common.digest([events, msgs]), "nt": common.digest(events), "n": 2 * len(FLAGS), "known": 0, "ndig": 1,
+            "k1_example": None, "cls": msgs[0].split(":")[0] if msgs else None, "case": {"inplace": events}}
 
 
 CLI_MODULE = [
@@ -356,6 +395,21 @@ def run(ctx):
         jobs += short
         results += ctx.sweep(functools.partial(check_module, case=oc), short, space=f"modules <=2 events, {oc} case", chunk=16,
                              selftest=2)
+    # an undocumented class with a fixed name and documented classes derived from it (every option combination)
+    base_k = {"k": "cpp_class", "doc": 0, "name": "BaseK", "bases": []}
+    der = {"k": "cpp_class", "doc": 1, "name": "DerivedK", "bases": ["BaseK", "Elsewhere"]}
+    fam = [([base_k, {"k": "close"}, der], "all"), ([base_k, dict(der)], "all"),
+           ([dict(base_k, doc=1), {"k": "close"}, der, {"k": "cpp_attr", "doc": 1, "default": "v"}], "all"),
+           ([der, {"k": "close"}, base_k], "all")]
+    jobs += fam
+    results += ctx.sweep(functools.partial(check_module, case=case), fam, space="derived classes x all 2^10 configurations", chunk=1, selftest=1)
+    # no doccomment in column 0: short modules again, every line indented, single-flag deviations (incl. all off)
+    ind = [(h, "single", "indented") for h in hs if len(h) <= 2]
+    jobs += ind
+    results += ctx.sweep(functools.partial(check_module, case=case), ind, space="modules <=2 events, indented layout", chunk=16, selftest=2)
+    # option flips on a Settings object that was used before
+    ij = [h for h in hs if len(h) <= (1 if quick else 2)] + [CLI_MODULE]
+    ctx.sweep(functools.partial(check_inplace, case=case), ij, space="options flipped in place / on a deep copy between runs", chunk=4, selftest=1)
     cj = [(src, off) for src in ("sfile", "user") for off in [()] + [(f,) for f in FLAGS] + [tuple(FLAGS)]
           # (switching classes off while a documented class exists is K1's input class: left to the main sweep)
           if "include_undocumented_cpp_class" not in off]
@@ -377,6 +431,14 @@ def run(ctx):
 
 
 def replay(case):
+    if isinstance(case, dict) and "inplace" in case:
+        return common.in_fork(check_inplace, case["inplace"], "lower")["viol"]
+    if isinstance(case, list) and len(case) > 2 and case[2] == "indented":
+        for cs in ("lower", "upper", "mixed"):
+            r = check_module((case[0], case[1], "indented"), cs)
+            if r["viol"]:
+                return r["viol"]
+        return []
     if isinstance(case, dict) and "cli" in case:
         return check_cli((case["cli"][0], tuple(case["cli"][1])))["viol"]
     events = case[0] if isinstance(case, list) else case.get("events", [])
